@@ -182,6 +182,7 @@ func C03(r *core.Report) {
 	r.Extra["C03_probes"] = nProbes
 	r.Floor("C03.R1", 12)
 	c03CacheKeying(r)
+	c14NoPooledAliasAs(r, "C03.R3")
 }
 
 // callResultObjs returns the variables that receive the results of call in f (excluding errors)
